@@ -41,6 +41,8 @@ def expected_mul(op, l, r, mode):
         c = round_ratio(a * b, P10[p + q - 18], mode)
         f = fits(c)
         if f == "fit":
+            if c == 0:
+                return ("value", 0, 0, 18)
             return ("exact", c, 18)
         return ("dcany",) if f == "edge" else ("signal",)
     # Decimal x int: exact with the Decimal's scale
